@@ -105,4 +105,64 @@ def filterMembers (e : Engine) (ms : List Member) (tags : List (String × String
     (status == "" || e.matchStr status m.status) &&
     (name == "" || e.matchStr name m.name))
 
+/-! ### the filter as a function of its extracted shape
+
+`SerfModel/Gen/AnchorTemplate.lean` (regenerated from ipc.go) describes `compileAnchored`
+statement by statement and the member loop guard by guard, in the vocabulary below;
+`filterMembersS` interprets such a description.  `canonicalShape` is the shape the
+theorems are about; `filterMembers = filterMembersS canonicalShape` (`filterMembersS_canonical`). -/
+
+/-- one statement of `compileAnchored(expr)` -/
+inductive CompileStep
+  | validateAlone              -- if _, err := regexp.Compile(expr); err != nil { return nil, err }
+  | wrap (format : String)     -- return regexp.Compile(fmt.Sprintf(format, expr))
+  deriving DecidableEq, Repr
+
+/-- how the member loop reads a requested tag of a member -/
+inductive TagRead
+  | valueOrEmpty      -- m.Tags[tag]                      (missing tag reads as "")
+  | presentOnly       -- val, ok := m.Tags[tag]; !ok ⇒ skip the member
+  deriving DecidableEq, Repr
+
+inductive Subject | status | name
+  deriving DecidableEq, Repr
+
+/-- one skip condition of the member loop -/
+inductive Guard
+  | tags (read : TagRead)                          -- for tag := range tags { if !tagsRe[tag].MatchString(<read>) { continue OUTER } }
+  | field (f : Subject) (skipWhenEmpty : Bool)     -- if [<pat> != "" &&] !<pat>Re.MatchString(m.<f>) { continue }
+  deriving DecidableEq, Repr
+
+structure FilterShape where
+  compile : List CompileStep
+  guards : List Guard
+  deriving DecidableEq, Repr
+
+def canonicalShape : FilterShape :=
+  { compile := [.validateAlone, .wrap "^(?:%s)$"]
+    guards := [.tags .valueOrEmpty, .field .status true, .field .name true] }
+
+/-- does `compileAnchored`, as described, return a compiled expression for `p`?  (The engine
+only knows the template `^(?:%s)$`: the obligations in Props pin the format.) -/
+def compileWith (steps : List CompileStep) (e : Engine) (p : String) : Bool :=
+  steps.all fun
+    | .validateAlone => e.validAlone p
+    | .wrap _ => e.compilesWrapped p
+
+def passes (e : Engine) (tags : List (String × String)) (status name : String) (m : Member) : Guard → Bool
+  | .tags .valueOrEmpty => tags.all fun tp => e.matchStr tp.2 (tagValue m tp.1)
+  | .tags .presentOnly => tags.all fun tp =>
+      match alookup m.tags tp.1 with
+      | some v => e.matchStr tp.2 v
+      | none => false
+  | .field .status skip => (skip && status == "") || e.matchStr status m.status
+  | .field .name skip => (skip && name == "") || e.matchStr name m.name
+
+def filterMembersS (s : FilterShape) (e : Engine) (ms : List Member) (tags : List (String × String))
+    (status name : String) : Option (List Member) :=
+  if !(tags.all fun tp => compileWith s.compile e tp.2) then none
+  else if !compileWith s.compile e status then none
+  else if !compileWith s.compile e name then none
+  else some (ms.filter fun m => s.guards.all (passes e tags status name m))
+
 end SerfModel.Regex
